@@ -101,6 +101,33 @@ class SeqOf(Ty):
         return z3.Empty(self.sort())
 
 
+class ListOf(Ty):
+    """an ordered Python list as (length, Array(Int, elem)); what lies beyond the length is irrelevant, so
+    specifications speak pointwise about indices below the length, never about equality of two lists"""
+
+    def __init__(self, elem):
+        self.elem, self.name = elem, 'List[' + elem.name + ']'
+
+    def sort(self):
+        if self.name not in _cache:
+            d = z3.Datatype('Lst_' + self.elem.name.replace('<', '_').replace('>', '_').replace('[', '_').replace(']', '_').replace(',', '_'))
+            d.declare('mk', ('len', z3.IntSort()), ('arr', z3.ArraySort(z3.IntSort(), self.elem.sort())))
+            _cache[self.name] = d.create()
+        return _cache[self.name]
+
+    def mk(self, n, arr):
+        return self.sort().mk(n, arr)
+
+    def len(self, t):
+        return self.sort().len(t)
+
+    def arr(self, t):
+        return self.sort().arr(t)
+
+    def empty(self):
+        return self.mk(z3.IntVal(0), z3.K(z3.IntSort(), self.elem.fresh('junk_' + self.elem.name.replace('<', '').replace('>', ''))))
+
+
 class Opt(Ty):
     def __init__(self, inner):
         self.inner, self.name = inner, 'Opt<' + inner.name + '>'
